@@ -27,7 +27,10 @@ TrajCase(deg) == \E d \in Durations, p0 \in PV, p1 \in PV, v0 \in DV, v1 \in DV,
                  kind' = "traj" /\ a' = <<deg, d>> /\ b' = <<p0, p1, v0, v1, a0, a1, j0, j1>>
 SeqsLen(S, n) == [1..n -> S]
 PolyCase == \E n \in 0..MaxLen : \E c \in SeqsLen(CoefVals, n), x \in XVals : kind' = "poly" /\ a' = c /\ b' = <<x>>
-Next == kind = "none" /\ ((\E deg \in Degrees : TrajCase(deg)) \/ PolyCase)
+\* long coefficient vectors from fixed patterns (loops over many coefficients), evaluated at -1/2, 1/2 and 1 (x in halves)
+LongPoly == \E n \in {9, 12, 16}, v \in {0, 1}, x \in {-1, 1, 2} :
+              kind' = "poly" /\ a' = [i \in 1..n |-> ((i * (v + 2) + v) % 5) - 2] /\ b' = <<x>>
+Next == kind = "none" /\ ((\E deg \in Degrees : TrajCase(deg)) \/ PolyCase \/ LongPoly)
 Emit == PrintT(ToJson(<<IF kind' = "traj" THEN 7070707 ELSE 6060606, Len(a'), Len(b'), a', b'>>))
 \* definitions are consistent: reversal is an involution, Evar of c is Eval of the reversed vector
 ASSUME \A c \in SeqsLen({RQ(-1), RQ(2), RQ(0)}, 3) : Rev(Rev(c)) = c /\ REq(Evar(c, RQ(2)), Eval(Rev(c), RQ(2)))
